@@ -80,6 +80,19 @@ func (c *Cluster) storeHook(path, kind, phase string) error {
 	if c.storePointHook != nil {
 		c.storePointHook(n, kind, phase)
 	}
+	if phase == "post" {
+		if kind == "event" {
+			n.eventRun++
+		} else {
+			n.eventRun = 0
+		}
+		if n.armEventRun > 0 && kind == "event" && n.eventRun == n.armEventRun {
+			n.armEventRun = 0
+			n.eventRun = 0
+			c.stats.probe("crash-between-ancestor-updates")
+			c.killAt(n, kind, phase, 0)
+		}
+	}
 	if n.armCrashAt > 0 && n.storePoints >= n.armCrashAt {
 		n.armCrashAt = 0
 		torn := n.armTorn
@@ -176,6 +189,13 @@ func (c *Cluster) opCrash(s *Step) {
 	if n == nil || !n.running() {
 		return
 	}
+	if s.Kind == "in-event-run" {
+		if n.storeKind != "badger" {
+			return
+		}
+		n.armEventRun = maxInt(s.N, 2)
+		return
+	}
 	if s.Kind == "at" {
 		if n.storeKind != "badger" {
 			return
@@ -209,6 +229,8 @@ func (c *Cluster) restartFromDisk(n *SimNode) {
 	prevEpoch := n.epoch
 	n.epoch++
 	n.armCrashAt = 0
+	n.armEventRun = 0
+	n.eventRun = 0
 	c.newSegment(n, -1)
 	if err := c.startNode(n, true); err != nil {
 		key := "bootstrap-error"
@@ -452,7 +474,7 @@ func (c *Cluster) genCrash(g *genState) *Step {
 	r := c.gen
 	cands := []*SimNode{}
 	for _, n := range c.nodes {
-		if n.running() && !n.ffDone && n.armCrashAt == 0 && (n.task == nil || n.task.done) && n.state() == _state.Babbling {
+		if n.running() && !n.ffDone && n.armCrashAt == 0 && n.armEventRun == 0 && (n.task == nil || n.task.done) && n.state() == _state.Babbling {
 			cands = append(cands, n)
 		}
 	}
@@ -472,6 +494,13 @@ func (c *Cluster) genCrash(g *genState) *Step {
 		return &Step{Op: "crash", A: n.idx, Kind: "now"}
 	case 1:
 		return &Step{Op: "cleanrestart", A: n.idx}
+	case 2:
+		if r.Bool(0.6) {
+			// inside one insertion: after the k-th of several consecutive event
+			// records (the new event, then its ancestors one commit each)
+			return &Step{Op: "crash", A: n.idx, Kind: "in-event-run", N: r.Range(2, 4)}
+		}
+		fallthrough
 	default:
 		st := &Step{Op: "crash", A: n.idx, Kind: "at", N: r.Range(1, 40)}
 		if r.Bool(c.cfg.TornP) {
